@@ -615,6 +615,13 @@ Example TemkinApprox_monotone_example : TemkinApprox_loading 5 5 3 1 < TemkinApp
 Proof. exact TemkinApprox_monotone_example. Qed.
 Print Assumptions TemkinApprox_monotone_example.
 
+(* the declared bounds leave tht unbounded above; beyond 4 the approximation yields NEGATIVE loadings (L (1 - tht L (1 - L)) with L (1-L) <= 1/4):
+   the non-negativity clause of the property is refuted for such in-bounds parameters (TemkinApprox_nonneg above needs tht <= 4) *)
+Theorem TemkinApprox_nonneg_refuted : exists n_m K tht p,
+  TemkinApprox_bounds n_m K tht /\ 0 <= p /\ TemkinApprox_loading_def n_m K tht p /\ TemkinApprox_loading n_m K tht p < 0.
+Proof. exact TemkinApprox_nonneg_refuted. Qed.
+Print Assumptions TemkinApprox_nonneg_refuted.
+
 (* ======== Freundlich ======== *)
 (* ---------------- C10 *)
 Theorem Freundlich_inverse_lp : forall K m p,
